@@ -123,6 +123,8 @@ def replay_confusion(chk, h, rnd):
       fn = getattr(fn_api, m, None)
       if fn is None:
         continue
+      if kw.get('input_type') == 'binary' and kw.get('pos_label') not in set(yt) | set(yp):
+        continue      # the function API validates that the positive label occurs among the labels (metrics/utils.py)
       try:
         v = fn(yt, yp, **kw)
       except Exception as e:  # pylint: disable=broad-exception-caught
